@@ -84,9 +84,13 @@ class Rig:
         """Positional arguments Python puts in front of the call's own (the instance of a method call)."""
         return (self.inst,) if self.flavour == "method" else ()
 
+    self_by_keyword = False
+
     def call(self, fn, args, kwargs):
         """Call the bare or the decorated callable the way a user would and return its result."""
-        if self.flavour == "method" and fn is self.func:
+        if self.flavour == "method" and fn is self.func and self.self_by_keyword and not args:
+            ret = type(self.inst).f(self=self.inst, **kwargs)  # the unbound function with `self` passed by keyword
+        elif self.flavour == "method" and fn is self.func:
             ret = self.inst.f(*args, **kwargs)
         else:
             ret = fn(*(self.prefix() + tuple(args)), **kwargs)
@@ -175,10 +179,11 @@ def expected_value(name, sig, bound, args, kwargs, rig):
         return ("val", bound.arguments[name])
     if name == "self" and rig.flavour == "method":
         return ("val", rig.inst)
+    by_kw = rig.flavour == "method" and rig.self_by_keyword and not args
     if name == "_ARGS":
-        return ("args", rig.prefix() + tuple(args))
+        return ("args", () if by_kw else rig.prefix() + tuple(args))
     if name == "_KWARGS":
-        return ("kwargs", kwargs)
+        return ("kwargs", dict({"self": rig.inst}, **kwargs) if by_kw else kwargs)
     if name in (sigmodel.VA_NAME, sigmodel.VK_NAME):
         raise core.HarnessError("variadic name requested")
     if name in kwargs:
@@ -257,6 +262,8 @@ def run_case(ctx, case):
     got_exc = None
     got_ret = None
     rig.reenter = sigmodel.make_call(sig, shape) if case.get("reenter") else None
+    # (with positional-only parameters `self` is positional-only too)
+    rig.self_by_keyword = bool(case.get("self_kw")) and not case.get("reenter") and not sig["po"]
     try:
         got_ret = rig.call(rig.func, args, kwargs)
     except core.HarnessError:
@@ -266,6 +273,9 @@ def run_case(ctx, case):
     finally:
         rig.reenter = None
         rig.depth = 0
+        by_kw_used = rig.self_by_keyword and rig.flavour == "method" and not args
+        if by_kw_used:
+            ctx.count("method called unbound with self passed by keyword")
     if case.get("reenter") and "body" in [r for r, _ in rig.log] and "body" not in [r for r, _ in rig.inner_log]:
         ctx.count("nested_call_did_not_reach_its_body")
 
@@ -347,8 +357,9 @@ def run_case(ctx, case):
                 if not (isinstance(got, tuple) and len(got) == len(kind[1]) and all(x is y for x, y in zip(got, kind[1]))):
                     fail("_ARGS", "%s received _ARGS=%r, call had %r" % (role, got, kind[1]), n)
             elif kind[0] == "kwargs":
-                if not (isinstance(got, dict) and list(got) == list(kwargs) and all(got[k] is kwargs[k] for k in kwargs)):
-                    fail("_KWARGS", "%s received _KWARGS=%r, call had %r" % (role, got, kwargs), n)
+                want = kind[1]
+                if not (isinstance(got, dict) and list(got) == list(want) and all(got[k] is want[k] for k in want)):
+                    fail("_KWARGS", "%s received _KWARGS=%r, call had %r" % (role, got, want), n)
     return feats
 
 
@@ -396,7 +407,7 @@ KNOWN = {
 def replay(ctx, case):
     c = {k: case[k] for k in ("sig", "shape", "req", "mode")}
     c["dreq"] = case.get("dreq")
-    for k in ("flavour", "reenter"):
+    for k in ("flavour", "reenter", "self_kw"):
         if k in case:
             c[k] = case[k]
     run_case(ctx, c)
@@ -427,6 +438,9 @@ def run(ctx, tier, seed, shard, nshards):
                     for mode in modes:
                         do_case(ctx, {"sig": sig, "shape": shape, "req": req, "dreq": None, "mode": mode,
                                       "flavour": flavour})
+                        if flavour == "method" and shape["npos"] == 0:
+                            do_case(ctx, {"sig": sig, "shape": shape, "req": req, "dreq": None, "mode": mode,
+                                          "flavour": flavour, "self_kw": True})
                 # the body calls the callable again with other argument objects: the outer call's postcondition,
                 # capture and error factory still get the outer call's values
                 for flavour in ("func", "method"):
@@ -468,7 +482,8 @@ def run(ctx, tier, seed, shard, nshards):
         if draw(st.booleans()):
             dreq = {r: [n for n in v if n not in ("result", "OLD") and draw(st.booleans())] for r, v in req.items()}
         return {"sig": sig, "shape": shape, "req": req, "dreq": dreq, "mode": draw(st.sampled_from(modes)),
-                "flavour": flavour, "reenter": draw(st.integers(0, 3)) == 0}
+                "flavour": flavour, "reenter": draw(st.integers(0, 3)) == 0,
+                "self_kw": flavour == "method" and draw(st.booleans())}
 
     @given(st_case())
     def test(case):
